@@ -231,7 +231,7 @@ def type_tables(ctx):
     m = ctx.m
     NONE = m.enum('CO_ERR_NONE')
     S_T, S_R, E_R = 0x04, 0x02, 0x01
-    for (f, P, base, sflag) in (('COTPdoReset', ['C12'], 0x1800, S_T), ('CORPdoReset', ['C13', 'C14'], 0x1400, S_R)):
+    for (f, P, base, sflag) in (('COTPdoReset', ['C12', 'C14'], 0x1800, S_T), ('CORPdoReset', ['C13', 'C14'], 0x1400, S_R)):
         m.need(f)
         # quick tier: boundaries of the transmission-type classes; thorough tier: all 256 types
         for ty in (range(256) if getattr(ctx, 'tier', 'quick') == 'thorough' else (0, 1, 2, 127, 128, 239, 240, 241, 251, 252, 253, 254, 255)):
@@ -243,7 +243,7 @@ def type_tables(ctx):
                               'call:COTPdoGetMap': NONE, 'call:CORPdoGetMap': NONE, 'call:COTmrGetTicks': 0,
                               'wp->Flags': (sflag if old_sync else 0), 'wp->Flag': ((sflag | E_R) if old_sync else 0),
                               'wp->EvTmr': -1, 'wp->InTmr': -1}
-                    trs = _run(m, f, inputs, filt=lambda k, fld: fld in (('CO_TPDO', 'Flags'), ('CO_RPDO', 'Flag')))
+                    trs = _run(m, f, inputs, filt=lambda k, fld: fld in (('CO_TPDO', 'Flags'), ('CO_RPDO', 'Flag'), ('CO_TPDO', 'Event'), ('CO_TPDO', 'Inhibit')))
                     site = '%s type=%d valid=%d previously-synchronous=%d' % (f, ty, valid, old_sync)
                     bad = None
                     if not trs:
@@ -252,8 +252,17 @@ def type_tables(ctx):
                         adds = [c for c in t.calls() if c[1] == 'COSyncAdd']
                         rems = [c for c in t.calls() if c[1] == 'COSyncRemove']
                         fl = None
+                        cached = set()
                         for e in t.stores():
-                            fl = e[2]
+                            if e[4][1] in ('Event', 'Inhibit'):
+                                cached.add(e[4][1])
+                            else:
+                                fl = e[2]
+                        # the cached event / inhibit times are RE-derived on every (re)initialisation of an enabled TPDO: a
+                        # TPDO that was event driven and is now synchronous must not keep its old period (COTPdoTx re-arms the
+                        # event timer after every transmission while Event > 0)
+                        if f == 'COTPdoReset' and valid and cached != set(['Event', 'Inhibit']) and bad is None:
+                            bad = 'cached times re-derived: %s only (the others keep the values of the previous configuration)' % sorted(cached)
                         want_sync = valid and ty <= 240
                         if len(adds) != (1 if want_sync else 0):
                             bad = 'registered with the SYNC service %d times (type %d, valid %d)' % (len(adds), ty, valid)
